@@ -557,6 +557,221 @@ theorem segment_end_point_shared (st : PathScratch P) (head : Str) (tail : List 
 
 end
 
+/-! ### the segment loop of `convert_path_str`, without indices or fuel -/
+
+section
+variable {F : Type} [Scalar F] [Cvt P F]
+
+/-- the segment loop written structurally: `seg` is the segment collected so far (type piece first),
+`rest` the pieces not yet looked at. A piece starting with an ASCII letter closes the segment — its
+end point is the piece after that letter, if any — and opens the next one; an empty piece is an error. -/
+def convertFrom (F : Type) [Scalar F] [Cvt P F] (offset : Pos P) :
+    PathScratch P → Bool → List Str → List Str → PathScratch P × Bool
+  | st, first, seg, [] => convertPoints F st seg none first offset
+  | st, first, seg, p :: rest =>
+    match firstIsAsciiAlpha p with
+    | none => (st, false)
+    | some false => convertFrom F offset st first (seg ++ [p]) rest
+    | some true =>
+      match convertPoints F st seg rest.head? first offset with
+      | (st', false) => (st', false)
+      | (st', true) => convertFrom F offset st' false [p] rest
+
+/-- what `convert_path_str`'s closure does with the state the loop leaves. -/
+def finishLoop (F : Type) [Scalar F] [Cvt P F] (pieces : List Str) (offset : Pos P)
+    (r : PathScratch P × Bool × Nat × Nat × Bool) : PathScratch P × Bool :=
+  match r with
+  | (st', false, _, _, _) => (st', false)
+  | (st', true, startIdx, endIdx, first) =>
+    if endIdx > startIdx then
+      convertPoints F st' ((pieces.drop startIdx).take (endIdx - startIdx)) none first offset
+    else (st', true)
+
+omit [Scalar P] in
+theorem take_succ_drop {α : Type} (l : List α) (s e : Nat) (hs : s ≤ e + 1) (he : e + 1 < l.length) :
+    (l.drop s).take (e + 2 - s) = (l.drop s).take (e + 1 - s) ++ [l[e + 1]] := by
+  have : e + 2 - s = (e + 1 - s) + 1 := by omega
+  rw [this, List.take_add, List.drop_drop]
+  congr 1
+  have h2 : s + (e + 1 - s) = e + 1 := by omega
+  rw [h2, List.drop_eq_getElem_cons he]
+  rfl
+
+/-- the index/fuel loop of the model is the structural loop. -/
+theorem pathLoop_eq (pieces : List Str) (offset : Pos P) :
+    ∀ (fuel : Nat) (st : PathScratch P) (s e : Nat) (first : Bool),
+      s ≤ e → e < pieces.length → pieces.length ≤ e + fuel →
+      finishLoop F pieces offset (pathLoop F pieces offset fuel st s e first) =
+        convertFrom F offset st first ((pieces.drop s).take (e + 1 - s)) (pieces.drop (e + 1)) := by
+  intro fuel
+  induction fuel with
+  | zero => intro st s e first _ he hf; omega
+  | succ n ih =>
+    intro st s e first hse he hf
+    rw [pathLoop]
+    by_cases hnext : e + 1 < pieces.length
+    · have hp : pieces[e + 1]? = some pieces[e + 1] := List.getElem?_eq_getElem hnext
+      have hdrop : pieces.drop (e + 1) = pieces[e + 1] :: pieces.drop (e + 2) := List.drop_eq_getElem_cons hnext
+      simp only [hnext, decide_true, Bool.not_true, Bool.false_eq_true, if_false, hp]
+      rw [hdrop, convertFrom]
+      cases hfa : firstIsAsciiAlpha pieces[e + 1] with
+      | none => rfl
+      | some b =>
+        cases b with
+        | false =>
+          dsimp only
+          rw [ih st s (e + 1) first (by omega) hnext (by omega), take_succ_drop pieces s e (by omega) hnext]
+        | true =>
+          dsimp only
+          have hhead : (pieces.drop (e + 2)).head? = pieces[e + 1 + 1]? := by
+            rw [List.head?_drop]
+          rw [hhead]
+          cases hc : convertPoints F st ((pieces.drop s).take (e + 1 - s)) pieces[e + 1 + 1]? first offset with
+          | mk st' ok =>
+            cases ok with
+            | false => rfl
+            | true =>
+              dsimp only
+              rw [ih st' (e + 1) (e + 1) false (Nat.le_refl _) hnext (by omega)]
+              have : (pieces.drop (e + 1)).take (e + 1 + 1 - (e + 1)) = [pieces[e + 1]] := by
+                rw [hdrop, show e + 1 + 1 - (e + 1) = 1 from by omega]; rfl
+              rw [this]
+    · have hdrop : pieces.drop (e + 1) = [] := List.drop_eq_nil_of_le (by omega)
+      simp only [hnext, decide_false, Bool.not_false, if_true]
+      rw [hdrop, convertFrom]
+      unfold finishLoop
+      simp only
+      rw [if_pos (by omega)]
+
+/-- **convert_path_str's closure, structurally**: split at `|`; the first piece opens the first segment. -/
+theorem convertSegments_eq (st : PathScratch P) (pointStr : Str) (offset : Pos P) (p0 : Str) (prest : List Str)
+    (hp : splitOn '|' pointStr = p0 :: prest) :
+    convertSegments F st pointStr offset = convertFrom F offset st true [p0] prest := by
+  unfold convertSegments
+  simp only [hp]
+  have := pathLoop_eq (F := F) (p0 :: prest) offset ((p0 :: prest).length + 1) st 0 0 true (Nat.le_refl _)
+    (by simp) (by omega)
+  simp only [List.drop_zero, List.take_succ_cons, List.take_zero, List.drop_succ_cons, Nat.zero_add] at this
+  rw [← this]
+  unfold finishLoop
+  rfl
+
+/-- a piece that starts a new segment: its first character is an ASCII letter. -/
+def isLetterPiece (p : Str) : Bool :=
+  match firstIsAsciiAlpha p with
+  | some true => true
+  | _ => false
+
+/-- **the segments of a path string**: the pieces after the first are cut before every letter piece;
+each segment but the last is handed, as its end point, the piece that follows the next letter piece. -/
+def cutSegments : List Str → List Str → List (List Str × Option Str)
+  | seg, [] => [(seg, none)]
+  | seg, p :: rest =>
+    if isLetterPiece p then (seg, rest.head?) :: cutSegments [p] rest else cutSegments (seg ++ [p]) rest
+
+/-- `convert_points` over the segments in order, stopping at the first failure; only the first segment
+has `first = true`. -/
+def runSegments (F : Type) [Scalar F] [Cvt P F] (offset : Pos P) :
+    PathScratch P → Bool → List (List Str × Option Str) → PathScratch P × Bool
+  | st, _, [] => (st, true)
+  | st, first, (seg, ep) :: more =>
+    match convertPoints F st seg ep first offset with
+    | (st', false) => (st', false)
+    | (st', true) => runSegments F offset st' false more
+
+theorem convertFrom_eq_run (offset : Pos P) (rest : List Str) :
+    ∀ (st : PathScratch P) (first : Bool) (seg : List Str), (∀ p ∈ rest, p ≠ []) →
+      convertFrom F offset st first seg rest = runSegments F offset st first (cutSegments seg rest) := by
+  induction rest with
+  | nil =>
+    intro st first seg _
+    simp only [convertFrom, cutSegments, runSegments]
+    cases convertPoints F st seg none first offset with
+    | mk st' ok => cases ok <;> rfl
+  | cons p rest ih =>
+    intro st first seg hne
+    have hp : p ≠ [] := hne p (by simp)
+    have hrest : ∀ q ∈ rest, q ≠ [] := fun q hq => hne q (by simp [hq])
+    rw [convertFrom, cutSegments]
+    cases p with
+    | nil => exact absurd rfl hp
+    | cons c cs =>
+      cases hb : (('a' ≤ c && c ≤ 'z') || ('A' ≤ c && c ≤ 'Z')) with
+      | false =>
+        have h1 : firstIsAsciiAlpha (c :: cs) = some false := by simp only [firstIsAsciiAlpha, hb]
+        have h2 : isLetterPiece (c :: cs) = false := by simp only [isLetterPiece, h1]
+        simp only [h1, h2, Bool.false_eq_true, if_false]
+        exact ih st first _ hrest
+      | true =>
+        have h1 : firstIsAsciiAlpha (c :: cs) = some true := by simp only [firstIsAsciiAlpha, hb]
+        have h2 : isLetterPiece (c :: cs) = true := by simp only [isLetterPiece, h1]
+        simp only [h1, h2, if_true, runSegments]
+        cases convertPoints F st seg rest.head? first offset with
+        | mk st' ok =>
+          cases ok with
+          | false => rfl
+          | true => exact ih st' false _ hrest
+
+/-- an empty piece (two `|` in a row, or a trailing `|`) makes the whole conversion fail. -/
+theorem convertFrom_empty_fails (offset : Pos P) (rest : List Str) :
+    ∀ (st : PathScratch P) (first : Bool) (seg : List Str), [] ∈ rest →
+      (convertFrom F offset st first seg rest).2 = false := by
+  induction rest with
+  | nil => intro st first seg h; simp at h
+  | cons p rest ih =>
+    intro st first seg hmem
+    rw [convertFrom]
+    cases p with
+    | nil => rfl
+    | cons c cs =>
+      have hmem' : [] ∈ rest := by simpa using hmem
+      cases hb : (('a' ≤ c && c ≤ 'z') || ('A' ≤ c && c ≤ 'Z')) with
+      | false =>
+        have h1 : firstIsAsciiAlpha (c :: cs) = some false := by simp only [firstIsAsciiAlpha, hb]
+        simp only [h1]
+        exact ih st first _ hmem'
+      | true =>
+        have h1 : firstIsAsciiAlpha (c :: cs) = some true := by simp only [firstIsAsciiAlpha, hb]
+        simp only [h1]
+        cases convertPoints F st seg rest.head? first offset with
+        | mk st' ok =>
+          cases ok with
+          | false => rfl
+          | true => exact ih st' false _ hmem'
+
+/-- **convert_path_str, declaratively.** Split the point string at `|`. If a piece after the first is
+empty the conversion fails. Otherwise the pieces are cut into segments before every piece that starts
+with an ASCII letter (the first piece always opens the first segment, whatever it is), and
+`convert_points` runs over the segments in order — `first` only for the first segment, end point = the
+piece following the next segment's type piece — stopping at the first failure. On failure
+`curve_points` is cleared. (Per segment, `convertPoints_spec` gives the control points appended.) -/
+theorem convertPathStr_spec (st : PathScratch P) (pointStr : Str) (offset : Pos P) (p0 : Str) (prest : List Str)
+    (hp : splitOn '|' pointStr = p0 :: prest) :
+    ([] ∈ prest → (convertPathStr F st pointStr offset).2 = false ∧
+        (convertPathStr F st pointStr offset).1.curvePoints = []) ∧
+    ((∀ p ∈ prest, p ≠ []) →
+      convertPathStr F st pointStr offset =
+        match runSegments F offset st true (cutSegments [p0] prest) with
+        | (st', true) => (st', true)
+        | (st', false) => ({ st' with curvePoints := [] }, false)) := by
+  unfold convertPathStr
+  rw [convertSegments_eq (F := F) st pointStr offset p0 prest hp]
+  constructor
+  · intro hmem
+    have := convertFrom_empty_fails (F := F) offset prest st true [p0] hmem
+    cases hc : convertFrom F offset st true [p0] prest with
+    | mk st' ok =>
+      rw [hc] at this
+      simp only at this
+      subst this
+      exact ⟨rfl, rfl⟩
+  · intro hne
+    rw [convertFrom_eq_run (F := F) offset prest st true [p0] hne]
+    cases runSegments F offset st true (cutSegments [p0] prest) with
+    | mk st' ok => cases ok <;> rfl
+
+end
+
 /-! ### non-vacuity and worked instances (integer toy scalar `Z`: positions are the integers themselves) -/
 
 instance : Cvt Z Z := ⟨id, id⟩
@@ -599,5 +814,15 @@ example : (convertPoints Z ({} : PathScratch Z) [str "P", str "1:1", str "2:0"] 
 -- this: two adjacent type letters make the earlier segment's end point a letter piece, which fails to read.
 example : (convertPoints Z ({} : PathScratch Z) [str "L"] (some (str "5:5")) false ⟨⟨0⟩, ⟨0⟩⟩).1.curvePoints
     = [zp 5 5 (some PathType.linear)] := rfl
+
+-- a whole path string: three segments, each handed the first point of the next one as its end point
+example : cutSegments [str "B"] [str "1:1", str "2:2", str "L", str "3:3", str "P", str "4:4", str "9:0"] =
+    [([str "B", str "1:1", str "2:2"], some (str "3:3")), ([str "L", str "3:3"], some (str "4:4")),
+     ([str "P", str "4:4", str "9:0"], none)] := by decide
+example : (convertPathStr Z ({} : PathScratch Z) (str "B|1:1|2:2|L|3:3|P|4:4|9:0") ⟨⟨0⟩, ⟨0⟩⟩).1.curvePoints
+    = [zp 0 0 (some PathType.bezier), zp 1 1, zp 2 2, zp 3 3 (some PathType.linear), zp 4 4 (some PathType.bezier), zp 9 0] := rfl
+-- an empty piece fails and clears `curve_points`
+example : (convertPathStr Z ({ curvePoints := [zp 7 7] } : PathScratch Z) (str "B|1:1||2:2") ⟨⟨0⟩, ⟨0⟩⟩).2 = false
+    ∧ (convertPathStr Z ({ curvePoints := [zp 7 7] } : PathScratch Z) (str "B|1:1||2:2") ⟨⟨0⟩, ⟨0⟩⟩).1.curvePoints = [] := ⟨rfl, rfl⟩
 
 end Rosu.C14
